@@ -11,6 +11,8 @@
  */
 #include <Vector/BLF.h>
 
+#include <sys/wait.h>
+
 #include "alloccap.h"
 #include "blfasm.h"
 #include "blfdefaults.h"
@@ -62,6 +64,41 @@ static void prepare() {
         blfasm::Bytes f = blfasm::file_bytes(STREAM, (size_t)CONT, (int)LEVEL, RP != 0, (uint32_t)SIZES.size());
         if (!blfasm::save(PATH, f)) { fprintf(stderr, "cannot write %s\n", PATH.c_str()); _exit(3); }
     }
+}
+
+/* fresh=1: the expected encodings are computed in a forked helper, so that the process that runs the session has not executed
+ * any library code before it (process-wide state - function-local statics, lazily grown scratch buffers - still initial) */
+static void prepare_in_helper(const std::string & scratch) {
+    std::string tmp = scratch + "/prep.bin";
+    fflush(stdout);
+    pid_t pid = fork();
+    if (pid == 0) {
+        prepare();
+        FILE * f = fopen(tmp.c_str(), "wb");
+        if (!f) _exit(3);
+        uint64_t n = ENC.size(), mo = g_maxobj;
+        fwrite(&n, 8, 1, f);
+        fwrite(&mo, 8, 1, f);
+        for (auto & e : ENC) { uint64_t l = e.size(); fwrite(&l, 8, 1, f); fwrite(e.data(), 1, e.size(), f); }
+        fclose(f);
+        _exit(0);
+    }
+    int st = 0;
+    waitpid(pid, &st, 0);
+    FILE * f = fopen(tmp.c_str(), "rb");
+    if (!f || !WIFEXITED(st) || WEXITSTATUS(st)) { fprintf(stderr, "prepare helper failed\n"); _exit(3); }
+    uint64_t n = 0, mo = 0;
+    if (fread(&n, 8, 1, f) != 1 || fread(&mo, 8, 1, f) != 1) _exit(3);
+    g_maxobj = (size_t)mo;
+    for (uint64_t i = 0; i < n; i++) {
+        uint64_t l = 0;
+        if (fread(&l, 8, 1, f) != 1) _exit(3);
+        blfasm::Bytes b(l);
+        if (l && fread(b.data(), 1, l, f) != l) _exit(3);
+        ENC.push_back(b);
+        blfasm::put(STREAM, b.data(), b.size());
+    }
+    fclose(f);
 }
 
 static void on_point(int, const void *) {
@@ -219,7 +256,8 @@ static int run_config(const vx::Args & args) {
     std::string scratch = vx::make_scratch();
     PATH = scratch + "/s.blf";
     int rc = vx::supervise("session", args, opt, [&](vx::Explorer & ex) {
-        prepare();
+        if (args.num("fresh", 0)) prepare_in_helper(scratch);
+        else prepare();
         ex.body = MODE == 'r' ? read_body : write_body;
         ex.explore();
         char extra[256];
